@@ -11,48 +11,23 @@ import Verif.Inv.Slots
 import Verif.Model.Loop
 import Verif.Inv.LifeInv
 import Verif.Inv.OwnInv
+import Verif.Inv.FailIns
 
 namespace Verif.Props.C15
 open Verif.Token Verif.Slots Verif.Loop
 
 theorem occupied_setOcc_roundtrip (ss : Slots) (i k : Nat) (s : Slot) (hs : ss[i]? = some s) (hv : s.occ = none) :
-    occupied (setOcc (setOcc ss i (some k)) i none) = occupied ss := by
-  induction ss generalizing i with
-  | nil => simp at hs
-  | cons x xs ih =>
-    cases i with
-    | zero =>
-      simp only [List.getElem?_cons_zero, Option.some.injEq] at hs
-      subst hs
-      simp [setOcc, occupied, List.filter, hv]
-    | succ i =>
-      simp only [List.getElem?_cons_succ] at hs
-      have := ih i hs
-      simp only [setOcc, occupied, List.filter] at this ⊢
-      split <;> simp_all
+    occupied (setOcc (setOcc ss i (some k)) i none) = occupied ss :=
+  Verif.Inv.Slots.occupied_setOcc_roundtrip ss i k s hs hv
 
-theorem occupied_bumpAt (bV : Nat) (ss : Slots) (i : Nat) : occupied (bumpAt bV ss i) = occupied ss := by
-  induction ss generalizing i with
-  | nil => rfl
-  | cons x xs ih =>
-    cases i with
-    | zero => simp only [bumpAt, occupied, List.filter]; cases x.occ.isSome <;> simp
-    | succ i =>
-      have := ih i
-      simp only [bumpAt, occupied, List.filter] at this ⊢
-      split <;> simp_all
+theorem occupied_bumpAt (bV : Nat) (ss : Slots) (i : Nat) : occupied (bumpAt bV ss i) = occupied ss :=
+  Verif.Inv.Slots.occupied_bumpAt bV ss i
 
 /-- a failed insertion (slot handed out, then vacated) leaves the occupied count as it was -/
 theorem failed_insert_leaks_no_slot (bV : Nat) (ss : Slots) (k : Nat) :
     let r := vacantEntry bV ss
-    occupied (setOcc (setOcc r.1 r.2 (some k)) r.2 none) = occupied ss := by
-  obtain ⟨s, h1, h2⟩ := Verif.Inv.Slots.vacantEntry_vacant bV ss
-  simp only
-  rw [occupied_setOcc_roundtrip _ _ k s h1 h2]
-  unfold vacantEntry
-  cases firstVacant ss with
-  | some i => exact occupied_bumpAt bV ss i
-  | none => simp [occupied, List.filter_append, List.filter]
+    occupied (setOcc (setOcc r.1 r.2 (some k)) r.2 none) = occupied ss :=
+  Verif.Inv.Slots.failed_insert_leaks_no_slot bV ss k
 
 /-- … and does not disturb the lookup of any other slot -/
 theorem failed_insert_frame (bV : Nat) (ss : Slots) (k : Nat) (t : Tok)
@@ -102,5 +77,38 @@ theorem next_dispatch_before_handle_does_not_panic (ops : List Op) (evs : List V
     (hab : (run ops).aborted = false) (hna : (run ops).aliased = false) :
     ¬ Verif.Inv.LifeInv.isUnreachable (forEachM (run ops).life (beforeHandle evs) (run ops)) :=
   Verif.Inv.LifeInv.next_before_handle_walk_fine ops evs hab hna (Verif.Inv.OwnInv.never_inserted_twice ops hab)
+
+/-! ### a failed insertion, from every state -/
+
+open Verif.Loop in
+/-- **From every state of the model** (reachable or not) and for every source: an insertion whose registration fails
+    leaves the lifecycle set, the timer wheel, the tokens handed out, the idle queue, the pending action and the
+    synthetic events exactly as they were, and as many slots occupied as before — whatever the source did while it
+    failed (partial sub-registrations, with or without roll-back). -/
+theorem failed_insert_restores (k : Nat) (keep : Bool) (s : St) :
+    match doInsert k keep s with
+    | .ok _ s' => ∀ e, s'.log.getLast? = some (.ins k (.err e)) →
+        (s'.life, s'.wheel, s'.tokens, s'.idles, s'.pending, s'.synth) = (s.life, s.wheel, s.tokens, s.idles, s.pending, s.synth) ∧
+        occupied s'.slots = occupied s.slots
+    | .error _ _ => True :=
+  Verif.Inv.FailIns.failed_insert_restores k keep s
+
+open Verif.Loop in
+/-- non-vacuity: a lifecycle source with three sub-sources whose second registration fails and which does not roll
+    back, inserted into a loop that already holds a lifecycle source, a timer and a queued idle -/
+def beforeFailedInsert : List Op :=
+  [.c (.newCustom 1 1 true), .c (.insert 1), .c (.newTimer 2 (some 9)), .c (.insert 2), .c (.idle 1),
+   .c (.newCustom 3 3 true), .c (.plan 3 { regFail := some 1, rollback := false })]
+
+open Verif.Loop in
+def failedInsertWitness : Bool :=
+  match doInsert 3 false (run beforeFailedInsert) with
+  | .ok _ s' =>
+    (match s'.log.getLast? with | some (.ins 3 (.err _)) => true | _ => false) &&
+    s'.life.length == 1 && s'.wheel.heap.length == 1 && s'.idles.length == 1 && occupied s'.slots == 2 &&
+    (run beforeFailedInsert).life.length == 1 && occupied (run beforeFailedInsert).slots == 2
+  | .error _ _ => false
+
+example : failedInsertWitness = true := by decide +kernel
 
 end Verif.Props.C15
